@@ -33,6 +33,19 @@ function spaces(tier) {
         }
       },
     },
+    {
+      name: 'W:wrapped-children',
+      bounds: { wrappers: Object.keys(E.WRAPS), wrapped: L_CHILDREN.filter((k) => E.wrapChild(E.CHILDREN[k].src, 'paren')), hosts: L_HOSTS, max_length: lLen, syntax: 'tsx', note: 'one expression child per list is wrapped in a semantically transparent wrapper; same expected list' },
+      *gen() {
+        for (const host of L_HOSTS) for (const ch of sequences(L_CHILDREN.length, lLen, {
+          minLen: 1, ok: (idx, pos) => !(pos > 0 && E.isText(L_CHILDREN[idx[pos]]) && E.isText(L_CHILDREN[idx[pos - 1]])),
+        })) {
+          const list = ch.map((i) => L_CHILDREN[i]);
+          if (list.length === lLen && !['div', 'Fragment'].includes(host)) continue;
+          for (let i = 0; i < list.length; i++) if (E.wrapChild(E.CHILDREN[list[i]].src, 'paren')) for (const w of Object.keys(E.WRAPS)) yield { sp: 'L', host, ch: list, w: [i, w] };
+        }
+      },
+    },
   ];
 }
 
@@ -46,8 +59,8 @@ function requests(c) {
     return [{ src, want: ['eval'], opts: '{}' }];
   }
   const h = E.HOSTS[c.host];
-  const jsx = E.renderJsx(c.host, [], c.ch.map((k) => E.CHILDREN[k].src));
-  return [{ src: E.renderModule(c.host, jsx), want: ['eval'], opts: E.optsJson({ pattern: !!h.pattern }) }];
+  const jsx = E.renderJsx(c.host, [], c.ch.map((k, i) => (c.w && c.w[0] === i ? E.wrapChild(E.CHILDREN[k].src, c.w[1]) : E.CHILDREN[k].src)));
+  return [{ src: E.renderModule(c.host, jsx), ts: !!c.w, want: ['eval'], opts: E.optsJson({ pattern: !!h.pattern }) }];
 }
 
 const EL = (t) => ({ __expectVNode: { type: 'tag:' + t, props: null, children: null } });
@@ -94,19 +107,22 @@ function* shrink(c) {
     // simplify symbols: any letter/entity → 'a'
     for (let i = 0; i < c.s.length; i++) if (['b', '&amp;'].includes(SYM[c.s[i]][0])) { const s = c.s.slice(); s[i] = 0; yield { sp: 'T', s }; }
   } else {
+    if (c.w) yield { sp: 'L', host: c.host, ch: c.ch };
+    if (c.w && c.w[1] !== 'paren') yield { sp: 'L', host: c.host, ch: c.ch, w: [c.w[0], 'paren'] };
     for (let i = 0; i < c.ch.length; i++) {
+      if (c.w && c.w[0] === i) continue;
       const ch = c.ch.slice(0, i).concat(c.ch.slice(i + 1));
       let ok = true;
       for (let j = 1; j < ch.length; j++) if (E.isText(ch[j]) && E.isText(ch[j - 1])) ok = false;
-      if (ok) yield { sp: 'L', host: c.host, ch };
+      if (ok) yield { sp: 'L', host: c.host, ch, w: c.w && [c.w[0] - (i < c.w[0] ? 1 : 0), c.w[1]] };
     }
-    if (c.host !== 'div') yield { sp: 'L', host: 'div', ch: c.ch };
+    if (c.host !== 'div') yield { sp: 'L', host: 'div', ch: c.ch, w: c.w };
   }
 }
 
 function caseKey(c) {
   if (c.sp === 'T') return 'T:' + c.s.map((i) => SYM[i][0]).join('.');
-  return `L:${c.host}[${c.ch.join(',')}]`;
+  return `L:${c.host}[${c.ch.map((k, i) => (c.w && c.w[0] === i ? c.w[1] + '(' + k + ')' : k)).join(',')}]`;
 }
 
 module.exports = {
